@@ -131,27 +131,6 @@ Section Good.
   Qed.
 End Good.
 
-Lemma fold_find id subs t :
-  fold_right (fun x acc => match find_id id x with Some r => Some r | None => acc end) None subs = Some t ->
-  exists x, In x subs /\ find_id id x = Some t.
-Proof.
-  induction subs as [|x subs IH]; cbn [fold_right]; intros H; [discriminate H|].
-  destruct (find_id id x) as [r|] eqn:F.
-  - injection H as <-. exists x. split; [left; reflexivity | exact F].
-  - destruct (IH H) as [y [Hy Fy]]. exists y. split; [right; exact Hy | exact Fy].
-Qed.
-
-Lemma find_id_sub id : forall n t, find_id id n = Some t -> sub t n.
-Proof.
-  induction n as [h subs IH|sl i|sl l] using node_ind'; intros t H; cbn [find_id] in H; try discriminate H.
-  assert (B : fold_right (fun x acc => match find_id id x with Some r => Some r | None => acc end) None subs = Some t -> sub t (Node h subs)).
-  { intros Hf. destruct (fold_find _ _ _ Hf) as [x [Hx Fx]]. rewrite Forall_forall in IH.
-    eapply sub_step; [exact Hx | apply IH; [exact Hx | exact Fx]]. }
-  destruct (h_id h) as [i|].
-  - destruct (hkey_eqb i id); [injection H as <-; apply sub_refl | apply B; exact H].
-  - apply B; exact H.
-Qed.
-
 Lemma wf_sub r : forall n, sub n r -> wf_node r = true -> wf_node n = true.
 Proof.
   intros n H. induction H as [|h subs x Hx Hs IH]; intros W; [exact W|].
